@@ -189,6 +189,25 @@ def run_shards(binary, args_for_shard, nshard=None, timeout=1800, bindir=None, e
     return res
 
 
+def library_panic(stderr):
+    """A driver that died of a Go panic: if the panicking goroutine's first frame outside the Go runtime is a
+    function of the library under test, that is the library's behaviour on the driver's (well-formed) input and
+    the description is returned; otherwise (a harness fault, or no panic) None - the caller reports inconclusive."""
+    m = re.search(r"^panic: (.*)$", stderr or "", re.M)
+    if not m:
+        return None
+    g = re.search(r"^goroutine \d+ \[running\]:\n((?:.+\n?)+)", stderr[m.end():], re.M)
+    if not g:
+        return None
+    for fn in re.findall(r"^(\S[^\n]*)\n\s+\S+:\d+", g.group(1), re.M):
+        if fn.startswith("runtime.") or fn.startswith("panic(") or fn.startswith("runtime/"):
+            continue
+        if fn.startswith("github.com/hugelgupf/p9/"):
+            return "the library panicked: %s in %s" % (m.group(1), fn.split("(")[0])
+        return None
+    return None
+
+
 def load_findings():
     p = os.path.join(ROOT, "known_findings.json")
     if not os.path.exists(p):
